@@ -186,6 +186,17 @@ func Scenarios(tier string) []run.Scenario {
 			Subs: []SubP{{Topics: tAB, Cancel: cancelWho == 1}, {Topics: []string{"b", "a", sse.DefaultTopic}, Cancel: cancelWho == 2}},
 			Pubs: [][]MsgP{{{"m1", tAB}, {"m2", tC}}, {{"m3", []string{sse.DefaultTopic, "b"}}}}})
 	}
+	// long topic lists (a dozen topics per message): matching must not depend on list length or on earlier messages
+	many := func(first string, prefix string) []string {
+		t := []string{first}
+		for i := 0; i < 11; i++ {
+			t = append(t, fmt.Sprintf("%s%d", prefix, i))
+		}
+		return t
+	}
+	add(Params{Name: "many-topics", PreInit: true, Preempt: -1,
+		Subs: []SubP{{Topics: tA}, {Topics: []string{"b", "u3"}}},
+		Pubs: [][]MsgP{{{"m1", many("a", "t")}, {"m2", many("zz", "u")}, {"m3", many("b", "v")}, {"m4", many("yy", "t")}}}})
 	// a neighbour fails: the others still get every message exactly once
 	for f := 0; f < 3; f++ {
 		for at := 1; at <= 2; at++ {
